@@ -12,6 +12,7 @@ OUTPATHS = [os.path.join(OUTDIR, 'o.txt'), os.path.join(OUTDIR, 'o.txt'), os.pat
 SPECIAL = ['0', '-1', '1e308', '1e-308', 'inf', '-inf', 'nan', '1e-30', '-0.0', '1e30', '0.5', '3']
 INTS = ['0', '-1', '1', '2', '-5', '7', '9' * 400, '-' + '9' * 400]      # Python integers have no upper limit
 HUGEINT = '1000000'
+WORDS = ['all', 'x', '', 'None', '1j', 'linear']
 
 BASES = [
     ['-f', '7', '-w', '4,0,0,0,0,0,10,.01', '--excitation-pulse=2'],
@@ -70,9 +71,11 @@ def mutate_field(rng, opt):
         return opt
     parts = val.split(',')
     k = rng.randrange(len(parts))
-    parts[k] = rng.choice(SPECIAL + INTS)
+    parts[k] = rng.choice(SPECIAL + INTS) if rng.random() < 0.85 else rng.choice(WORDS)
     if rng.random() < 0.1:
         parts = parts[:-1] if len(parts) > 1 and rng.random() < .5 else parts + [rng.choice(SPECIAL)]
+    elif rng.random() < 0.06 and len(parts) > 1:
+        del parts[rng.randrange(len(parts))]
     return name + sep + ','.join(parts)
 
 
@@ -82,8 +85,19 @@ def gen_taper(rng):
     l = 10 ** rng.uniform(-1, 2)
     r = l / n / rng.choice([3, 5, 10, 50, 200])
     mn = rng.choice([0, 0, l / n * rng.uniform(0.01, 1.2)])
-    t = '--taper-wire=1,%d,%r' % (rng.choice([1, 2, 3]), mn)
-    if rng.random() < 0.7:
+    typ = rng.choice([1, 2, 3])
+    t = '--taper-wire=1,%d,%r' % (typ, mn)
+    u = rng.random()
+    if u < 0.35:
+        # the largest segment the untapered-maximum taper would have, to within a few units in the last place: the
+        # boundary between "the maximum does not bind" and the search for a taper that respects it
+        import numpy as np
+        h = n // 2
+        m0 = l * 2 ** (n - 1) / (2 ** n - 1) if typ < 3 else (l * 2 ** h / (2 * (2 ** h - 1) + 2 ** h) if n % 2 else l * 2 ** (h - 1) / (2 * (2 ** h - 1)))
+        for _ in range(rng.choice([0, 0, 1, 1, 2, 3])):
+            m0 = float(np.nextafter(m0, rng.choice([0.0, 1e300])))
+        t += ',%r' % m0
+    elif u < 0.8:
         t += ',%r' % (l / n * rng.uniform(0.8, 4))
     return ['-f', '%r' % (299.8 / (l / n) / 25), '-w', '%d,0,0,0,0,0,%r,%r' % (n, l, r), '--excitation-pulse=1', t, '--theta=0,45,2', '--phi=0,90,1']
 
